@@ -1101,6 +1101,16 @@ class FortranFile:
                     next_line = self.get_line(line_ind, pp_content)
                     line_ind += 1
                     if FRegex.FIXED_CONT.match(next_line):
+                        # A trailing comment of the line that is continued is not
+                        # part of the statement (the last line keeps its own)
+                        if post_lines:
+                            comm_ind = find_comment_start(post_lines[-1])
+                            if comm_ind >= 0:
+                                post_lines[-1] = post_lines[-1][:comm_ind]
+                        else:
+                            comm_ind = find_comment_start(curr_line)
+                            if comm_ind >= 0:
+                                curr_line = curr_line[:comm_ind]
                         post_lines.extend(skipped_lines)
                         skipped_lines = []
                         post_lines.append(" " * 6 + next_line[6:])
